@@ -25,6 +25,8 @@ def run(ctx):
     rn = ctx.rule('R-EFFECT.noblock', 'no blocking call in Submit/Call/Drop', minimum=3)
     rsh = ctx.rule('R-SHAPE', 'Call / Drop finish every job of the detached batch exactly once and lose none (shape '
                    'analysis over list segments, all batch sizes)', minimum=2)
+    rjf = ctx.rule('R-JOBFIELDS', 'every member of Strand that can hold jobs and is used by Call() is drained by Drop() '
+                   'too (sibling agreement of the two ways the underlying executor finishes the strand)', minimum=1)
     rcf = ctx.rule('R-CASFRESH', 'every retry of a compare-exchange re-tests the refreshed expected value against the '
                    'sentinels the first attempt tested', minimum=0)
     for cfg, fb in sorted(fbs.items()):
@@ -36,6 +38,7 @@ def run(ctx):
         for need in ('Submit', 'Call', 'Drop'):
             if need not in fns:
                 ctx.broken('Strand::%s not found' % need)
+        ctx.guard(lambda: lib_exec.check_job_fields(ctx, fb, rjf, S))
         ctx.guard(lambda: lib_exec.check_submit_linear(ctx, fb, rl, lambda f: f.clsq == S))
         ctx.guard(lambda: lib_exec.check_dequeue(ctx, fb, rl, [fns['Call'], fns['Drop']]))
         # ---- schedule
